@@ -119,6 +119,18 @@ impl VisitMut for Passes {
     fn visit_attributes_mut(&mut self, attrs: &mut Vec<Attribute>) {
         attrs.clear();
     }
+    // R-REFPAT in match arms:  `Some(&x) => e`  ->  `Some(x_ref) => { let x = *x_ref; e }`
+    fn visit_arm_mut(&mut self, arm: &mut Arm) {
+        let mut rp = RefPat { lets: vec![] };
+        if arm.guard.is_none() { rp.visit_pat_mut(&mut arm.pat); }
+        if !rp.lets.is_empty() {
+            self.log.push("R-REFPAT match arm".to_string());
+            let lets = rp.lets;
+            let body = &arm.body;
+            arm.body = Box::new(parse_quote!( { #(#lets)* #body } ));
+        }
+        visit_mut::visit_arm_mut(self, arm);
+    }
     fn visit_local_mut(&mut self, l: &mut Local) {
         visit_mut::visit_local_mut(self, l);
         // R-MAPCOLLECT result bound by `let x: Vec<T> = ...`: give the accumulator the declared type (invariants may index it)
